@@ -1182,6 +1182,35 @@ func callBuiltin(caller *frame, callpos token.Pos, fn *ssa.Builtin, args []value
 		close(args[0].(chan value))
 		return nil
 
+	case "clear": // clear(map) / clear(slice) (Go 1.21)
+		switch x := args[0].(type) {
+		case *omap:
+			if x != nil {
+				for _, e := range x.live() {
+					x.delete(e.key)
+				}
+			}
+		case []value:
+			if len(x) > 0 {
+				var et types.Type
+				if sl, ok := fn.Type().(*types.Signature); ok && sl.Params().Len() > 0 {
+					if st, ok := sl.Params().At(0).Type().Underlying().(*types.Slice); ok {
+						et = st.Elem()
+					}
+				}
+				for k := range x {
+					if et != nil {
+						x[k] = zero(et)
+					} else {
+						x[k] = zeroLike(x[k])
+					}
+				}
+			}
+		default:
+			panic(fmt.Sprintf("clear of %T", x))
+		}
+		return nil
+
 	case "delete": // delete(map[K]value, K)
 		m := args[0].(*omap)
 		if m != nil {
@@ -1605,7 +1634,8 @@ func sliceToArrayPointer(t_dst, t_src types.Type, x value) value {
 			if arr, ok := ptr.Elem().Underlying().(*types.Array); ok {
 				x := x.([]value)
 				if arr.Len() > int64(len(x)) {
-					panic("array length is greater than slice length")
+					// a run-time panic of the program under test, not of the engine
+					panic(targetPanic{fmt.Sprintf("runtime error: cannot convert slice with length %d to array or pointer to array with length %d", len(x), arr.Len())})
 				}
 				if x == nil {
 					return zero(t_dst)
@@ -1636,4 +1666,54 @@ func foldLeft(op func(value, value) value, args []value) value {
 		x = op(x, arg)
 	}
 	return x
+}
+
+// zeroLike is the zero value of the dynamic representation of v (used by
+// clear when the element type is not at hand).
+func zeroLike(v value) value {
+	switch x := v.(type) {
+	case bool:
+		return false
+	case int:
+		return int(0)
+	case int8:
+		return int8(0)
+	case int16:
+		return int16(0)
+	case int32:
+		return int32(0)
+	case int64:
+		return int64(0)
+	case uint:
+		return uint(0)
+	case uint8:
+		return uint8(0)
+	case uint16:
+		return uint16(0)
+	case uint32:
+		return uint32(0)
+	case uint64:
+		return uint64(0)
+	case uintptr:
+		return uintptr(0)
+	case string:
+		return ""
+	case *value:
+		return (*value)(nil)
+	case iface:
+		return iface{}
+	case structure:
+		out := make(structure, len(x))
+		for k := range x {
+			out[k] = zeroLike(x[k])
+		}
+		return out
+	case array:
+		out := make(array, len(x))
+		for k := range x {
+			out[k] = zeroLike(x[k])
+		}
+		return out
+	}
+	panic(unsupported(fmt.Sprintf("clear: zero of %T", v)))
 }
